@@ -151,6 +151,8 @@ type reqCase struct {
 	Variant string `json:"variant,omitempty"` // spec variant (variants.go); "" = the real document
 	// sequence stream (sequences.go): auxiliary requests served by the same server instance before
 	Before []seqStep `json:"before,omitempty"`
+	// concurrent stream (concurrent.go): the requests of the round this request was part of
+	Round []seqStep `json:"round,omitempty"`
 }
 
 func (c reqCase) path() []byte { b, _ := hex.DecodeString(c.PathHex); return b }
@@ -914,6 +916,10 @@ func main() {
 				}
 			}
 		}
+		if c.Kind == "concurrent" || c.Kind == "concurrent-overlap" {
+			w.replayConcurrent(pool, c)
+			return
+		}
 		if c.Kind == "sequence" || c.Kind == "sequence-aux" {
 			w.replaySequence(pool, c, canon)
 			return
@@ -963,4 +969,6 @@ func main() {
 	w.runVariants(pool)
 	// 6. request sequences on one server instance per mode (auxiliary routes between the probes)
 	w.runSequences(pool)
+	// 7. concurrent requests on one server instance per mode (barrier rounds, blocked spec load)
+	w.runConcurrent(pool)
 }
